@@ -348,7 +348,10 @@ def summarize_model(ms):
 def collect_dir(root):
     from paroxython.make_db import TagDatabase
     try:
-        db = c11.quiet(TagDatabase, root, ignore_timestamps=True)
+        with c11.deadline(c11.DEADLINE):
+            db = c11.quiet(TagDatabase, root, ignore_timestamps=True)
+    except c11.Watchdog:
+        return {"exc": "Timeout"}
     except RecursionError:
         return {"exc": "RecursionError"}
     except Exception as e:  # noqa
